@@ -112,6 +112,10 @@ def run(chk, repo, pid):
         for v, y, mnode in lints.yield_then_mutate(f.node):
             found.append(('yield then mutate', mnode.line, f'yield ... {v} ... ; {mnode.text()[:50]}',
                           f'the yielded `{v}` is mutated afterwards: a consumer that kept it sees the later content'))
+        if 'CompartmentalSystemBuilder' in unparse(f.node) and 'model' in f.all_params:
+            for var, d, r, u in lints.stale_system_after_model_rebind(f.node):
+                found.append(('stale system', u.line, f'{d.text()[:40]} ... {r.text()[:40]} ... {u.text()[:50]}',
+                              f'`{var}` was read before the model was re-bound to a changed system'))
         for b in ast.walk(f.node):
             if f.name in ('replace', 'create', 'derive') and isinstance(b, ast.BoolOp) and isinstance(b.op, ast.Or) \
                     and isinstance(b.values[0], ast.Call) and isinstance(b.values[0].func, ast.Attribute) \
@@ -129,4 +133,4 @@ def run(chk, repo, pid):
                 chk.violation(Y0, f.module.rel, f.qualname, f'loop-carried flag `{v}`',
                               'tested and cleared in an inner loop, initialised outside the outer loop', line=M.lineno,
                               advisory=True)
-    chk.instance(Y0, f'{nfun} functions of {len(mods)} anchored modules scanned for 10 defect shapes', n=nfun)
+    chk.instance(Y0, f'{nfun} functions of {len(mods)} anchored modules scanned for 11 defect shapes', n=nfun)
